@@ -124,6 +124,12 @@ def cases(tier, seed):
             if len(N) >= 2 and rep == 1:
                 for rm in (1, 2):
                     cs.append({'scen': 'tt_round', 's': dict(base, rmax=rm)})
+    # histories on one object: round, (replace a core,) round again
+    for N, R, k in [([2, 2], [1, 2, 1], 0), ([2, 2], [1, 2, 1], 1), ([2, 2, 2], [1, 2, 2, 1], 1), ([2, 3], [1, 2, 1], 1)]:
+        pats = gen_tt_pattern(N, R, rng, dense_slices=True, skip=0)
+        base = {'N': N, 'R': R, 'patterns': [[list(p) for p in pk] for pk in pats]}
+        cs.append({'scen': 'tt_round', 's': dict(base, prelude='round_set_core', set_core=k)})
+        cs.append({'scen': 'tt_round', 's': dict(base, prelude='round')})
     # complex128 copies of a sample (symbolic positive moduli with fixed rational unit phases; arbitrary complex entries for the rank-1 'general' cases)
     from .C03 import _pick
     pool = [c for c in cs if 'dtype' not in c['s']]
